@@ -55,7 +55,7 @@ CONFIG = {
 }
 REQUIRED = ['adjust_calls', 'params_formula_checked', 'rows_formula_checked', 'nonfinite_rows_dropped', 'params_with_own_nonfinite',
             'unused_summary_nonfinite_kept', 'unchanged_draws_checked', 'affine_params_checked', 'subset_parameter_cases',
-            'reordered_summary_cases', 'e2e_rejection_cases', 'reused_adjustment_object_cases', 'compare_calls', 'compare_formula_checked', 'compare_sum_checked',
+            'reordered_summary_cases', 'e2e_rejection_cases', 'reused_adjustment_object_cases', 'summaries_in_extreme_units', 'compare_calls', 'compare_formula_checked', 'compare_sum_checked',
             'compare_permutation_checked', 'compare_mixed_shares', 'compare_with_priors', 'compare_integer_priors', 'compare_unequal_n_sim', 'compare_unequal_n_samples']
 
 
@@ -119,7 +119,7 @@ def gen_cases(ctx):
         case = {'kind': 'adjust', 'seed': seed, 'n': n, 'K': K, 'P': P, 'used': used, 'params': psel,
                 'nonfinite': str(rng.choice(['none', 'few', 'few', 'many'])),
                 'planted': int(rng.choice([0, 1, 1, 2])),
-                'scales': str(rng.choice(['unit', 'mixed', 'offset'])),
+                'scales': str(rng.choice(['unit', 'mixed', 'offset', 'huge', 'tiny'])),
                 'e2e': False}
         if r > 0.9:
             case['kind'] = 'adjust'
@@ -147,13 +147,18 @@ def _oracle_param(Xd, th):
     """Returns (finite mask, reference adjusted values or None when skipped, reason, scale)."""
     fin = np.isfinite(Xd).all(axis=1) & np.isfinite(th)
     k = Xd.shape[1]
-    A = np.column_stack([np.ones(int(fin.sum())), Xd[fin]])
     if fin.sum() < k + 2:
         return fin, None, 'too_few_rows', None
+    # least squares in units of each column's own spread: the fitted correction slope * (s - s_obs) does not depend on the
+    # units of the summaries, and the conditioning that matters is that of the unit-free design matrix
+    u = np.abs(Xd[fin]).max(axis=0)
+    u = np.where(u > 0, u, 1.0)
+    Z = Xd[fin] / u
+    A = np.column_stack([np.ones(int(fin.sum())), Z])
     if np.linalg.cond(A) > 1e6:
         return fin, None, 'ill_conditioned', None
     beta = np.linalg.lstsq(A, th[fin], rcond=None)[0][1:]
-    corr = Xd[fin] @ beta
+    corr = Z @ beta
     ref = th[fin] - corr
     scale = float(np.abs(th[fin]).max() + np.abs(corr).max())
     return fin, ref, None, scale
@@ -176,6 +181,11 @@ def _run_adjust(ctx, case):
 
     if case['scales'] == 'unit':
         sc, off = np.ones(K), np.zeros(K)
+    elif case['scales'] in ('huge', 'tiny'):
+        # summaries measured in units that make every regression slope tiny (or huge): the adjustment slope * (s - s_obs) is unit-free
+        sc = 10.0 ** (rg.uniform(8, 12, size=K) if case['scales'] == 'huge' else rg.uniform(-12, -8, size=K))
+        off = rg.normal(size=K) * sc
+        ctx.event('summaries_in_extreme_units')
     elif case['scales'] == 'mixed':
         sc, off = 10.0 ** rg.uniform(-2, 2, size=K), rg.normal(size=K)
     else:
@@ -301,7 +311,9 @@ def _run_adjust(ctx, case):
                 break
         else:
             A = np.eye(k) * 2.0
-        c = rg.normal(size=k) * float(np.abs(obs[used]).max() + 1.0)
+        Xu = X[:, used]
+        # offset of the size of the data (an O(1) offset added to summaries of size 1e-10 would only inject cancellation error)
+        c = rg.normal(size=k) * float(np.abs(obs[used]).max() + np.abs(Xu[np.isfinite(Xu)]).max())
         X2 = X[:, used] @ A.T + c
         obs2 = obs[used] @ A.T + c
         bad_rows = ~np.isfinite(X[:, used]).all(axis=1)
@@ -318,8 +330,9 @@ def _run_adjust(ctx, case):
         Xd2 = X2 - obs2
         for p, (got, scale) in checked.items():
             fin2 = np.isfinite(Xd2).all(axis=1) & np.isfinite(TH[p])
-            A2 = np.column_stack([np.ones(int(fin2.sum())), Xd2[fin2]])
-            if np.linalg.cond(A2) > 1e6:
+            u2 = np.abs(Xd2[fin2]).max(axis=0)
+            A2 = np.column_stack([np.ones(int(fin2.sum())), Xd2[fin2] / np.where(u2 > 0, u2, 1.0)])
+            if np.linalg.cond(A2) > 1e4:      # rounding of either fit grows like eps * cond^2; 1e-6 is the tolerance below
                 ctx.event('skipped_affine_ill_conditioned')
                 continue
             got2 = np.asarray(adj2.outputs[p], dtype=float)
